@@ -443,7 +443,7 @@ def run_check(tier, seed):
             run.stat('corpus_rejected')
 
     # ---- random scripts
-    n_scripts = 10 if tier == 'quick' else 400
+    n_scripts = 40 if tier == 'quick' else 400
     n_steps = 40 if tier == 'quick' else 60
     all_cases = []
     for s in range(n_scripts):
@@ -489,10 +489,10 @@ def run_check(tier, seed):
     sizes = '[0; 1]'
     cap = 2000 if tier == 'quick' else 20000
     bound = 16 if tier == 'quick' else 64
-    fexprs = ['case_falsify %s %d%%N %d%%N %s' % (sizes, bound, cap, g_thm(th)) for (_, th, _, _) in accepted]
+    fexprs = ['(if wfc_thm %s then case_falsify %s %d%%N %d%%N %s else 4)' % (g_thm(th), sizes, bound, cap, g_thm(th)) for (_, th, _, _) in accepted]
     failed = []
     fcodes = coq_eval_nats(run.wd, IMPORTS, fexprs, tag='falsify', shard=40, timeout=240, fail_code=3, failed=failed)
-    n_eval = n_skip = 0
+    n_eval = n_skip = n_illformed = 0
     for (descr, th, key, script), code in zip(accepted, fcodes):
         if code == 0:
             run.violation('property', 'accepted sequent is false in a finite standard model: %s' % sstr(th),
@@ -502,10 +502,12 @@ def run_check(tier, seed):
                           key=key or ('C01:invalid:' + descr.split(' ')[0]))
         elif code == 1:
             n_eval += 1
+        elif code == 4:
+            n_illformed += 1
         else:
             n_skip += 1
     run.cov['search'] = dict(oracle='finite-model evaluator Falsify.falsify (vm_compute)', sequents=len(accepted),
-                             evaluated=n_eval, skipped_cap=n_skip, shards_timed_out=len(failed))
+                             evaluated=n_eval, skipped_cap=n_skip, skipped_foreign_constant_instances=n_illformed, shards_timed_out=len(failed))
 
     # ---- disagreements: correspondence broken
     for c, e, code in disagreements[:10]:
